@@ -61,6 +61,7 @@ type HarnessRun struct {
 	spec      *harnessSpec
 	fn        *ssa.Function
 	roomy     bool
+	rtgrow    bool // append growth as runtime.growslice of go1.24/amd64
 	fanoutCap int
 	loopCap   int
 	stepCap   int64
@@ -112,6 +113,7 @@ type finding struct {
 	Detail      string
 	Count       int
 	Models      [][]drawVal
+	Extra       [][]drawVal `json:"-"`
 	Replays     []string
 	Status      string // reproduced, unconfirmed, known
 	Realised    int
@@ -120,6 +122,9 @@ type finding struct {
 func (hr *HarnessRun) id() string {
 	if hr.roomy {
 		return hr.spec.name + "+roomy"
+	}
+	if hr.rtgrow && len(hr.spec.policies) > 1 {
+		return hr.spec.name + "+runtime"
 	}
 	return hr.spec.name
 }
@@ -425,6 +430,11 @@ func (r *Run) runPath(w *Worker, it workItem) (more [][]uint64) {
 		}
 		if model != nil && len(f.Models) < 3 {
 			f.Models = append(f.Models, model)
+		} else if model != nil && len(f.Extra) < 60 && (f.Count <= 24 || f.Count%9 == 0) {
+			// further models of the same fingerprint: replayed only when none of the first ones reproduces (a
+			// violation that natively shows on other inputs of the class, e.g. behaviour depending on the runtime's
+			// append growth or map order)
+			f.Extra = append(f.Extra, model)
 		}
 	}
 	violated := false
